@@ -22,10 +22,16 @@ CLAIMED = {
              "against): updateEmpty_value / updateEmpty_idem / updateEmpty_kind, execL_abrupt (nothing after an abrupt statement runs), "
              "execL_normal, finally_overrides (an abruptly completing finally block overrides any earlier completion), finally_transparent. "
              "The interpreter is the executable spec: on generated programs of the fragment the engine's printed trace AND its completion "
-             "(value, or class of the uncaught error) must equal the model's. The clauses about the origin of the text and the way the "
-             "engine is entered are differentials on richer programs (script / function call / indirect eval / new Function).",
-        technique="Lean 4 reference interpreter (completion records, environments) with proved completion laws + model-predicted vs real trace and completion on generated programs + entry-route differentials",
-        note="PARTIAL: objects, coercions, generators, destructuring and classes are outside the Lean fragment (only covered by the route differentials).",
+             "(value, or class of the uncaught error) must equal the model's. A second model, C01.Coerce, covers operators and coercions over primitives and objects whose "
+             "valueOf / toString are absent, return a primitive, return an object or throw, recording the ORDER of those calls: ToPrimitive / "
+             "OrdinaryToPrimitive with its three hints, ToNumber, ToString, + - * < > <= >= == != === !==, unary - + !, typeof, template literals, "
+             "String(), Number(); theorems toPrimitive_prim, toPrimitive_string_first, toPrimitive_valueOf_first, toPrimitive_typeError, "
+             "binary_prims_silent, binary_left_failure_stops (left operand first: nothing of the right operand runs after the left conversion "
+             "fails), arith_result_numeric; 1500 (thorough 60000) generated operator cases must give the model's value, type, error and call "
+             "order on the engine. The clauses about the origin of the text and the way the engine is entered are differentials on richer "
+             "programs (script / function call / indirect eval / new Function).",
+        technique="Lean 4 reference interpreter (completion records, environments) with proved completion laws + a second Lean model of operators and coercions (ToPrimitive order, IsLessThan, IsLooselyEqual) with proved laws + model-predicted vs real trace and completion on generated programs and operator cases + entry-route differentials",
+        note="PARTIAL: property access, generators, destructuring and classes are outside both Lean models (covered only by the route differentials and a list of hand-derived expectations, which are tests).",
     ),
     "C04": dict(
         level="proof",
@@ -75,8 +81,11 @@ CLAIMED = {
              "case where JavaScript requires -0), mul_tdiv_inRange (the product the division path computes cannot overflow), and "
              "remOld_panics (the remainder as written before the repair fails on (MIN, -1)). Tie: model and engine — the public JsValue "
              "operators and the VM's opcode handlers — run on every pair of a 42x42 grid of edge values plus random pairs and must agree on "
-             "value and representation. EXPLORED rest (not a proof): byte strings, token-level mutations, token soup and generated programs "
-             "on fresh and reused contexts under catch_unwind with the documented limits; a panic, abort or EnginePanic is a failing input.",
+             "value and representation. EXPLORED rest (not a proof): byte strings, token-level mutations, token soup, generated programs, a "
+             "lexer-edge corpus (numeric / regex / escape / template / identifier boundaries), cache-shape programs (every descriptor kind read, "
+             "written, deleted and redefined through shared functions) and a sweep that calls every builtin function reachable from the global "
+             "object with edge receivers and arguments — on fresh and reused contexts under catch_unwind with the documented limits; a panic, "
+             "abort or EnginePanic is a failing input.",
         technique="Lean 4 proof that the integer fast paths cannot panic, wrap or lose -0 (model with explicit Rust failure modes) + model-vs-engine correspondence over an exhaustive edge grid and random operands; the remainder of the property (lexer, parser, compiler, other handlers, builtins) by catch_unwind exploration of raw, mutated and generated inputs",
         note="PARTIAL: only the integer operator core is proved; for everything else the check is exploration (fuzzing), which the brief does not "
              "accept as proof — it can find a failing input, it cannot show absence.",
